@@ -7,7 +7,7 @@ from typing import Dict, List, Optional, Set, Tuple
 
 from ..model import Repo, ClassInfo, FunctionInfo, AnalysisError, walk_no_nested, src, is_self_attr, call_name, dotted, parent, \
     ancestors, enclosing_stmt, const_str
-from ..core import Ob, Rule, Mutant, mutate_module, find_def, find_defs, replace_node, text_mutant
+from ..core import Ob, Rule, Mutant, mutate_module, find_def, find_defs, replace_node, text_mutant, inconclusive
 from ..dataflow import Defs
 from ..cfg import cfg_of
 from ..astq import flatten, norm, return_exprs
@@ -200,11 +200,27 @@ def rule_mgf_domain(repo: Repo) -> List[Ob]:
             except AnalysisError:
                 ok = False
             detail = src(c)
-        # and the answer is False unless the comparison is decided True
-        neg = any(isinstance(r, ast.Constant) and r.value is False for r in rets) and any(isinstance(r, ast.Constant) and r.value is True for r in rets)
-        obs.append(Ob("F-mgf-domain", key, cls.relpath, m.node.lineno, m.qualname, ok and neg,
-                      f"mgf exists iff {lhs} {op} {rhs}; undecided comparisons count as 'does not exist'" if ok and neg else
-                      f"existence test `{detail}` is not {lhs} {op} {rhs} (strict), or undecided cases are accepted"))
+        # and the answer is False unless the comparison is decided True (possibly in a shared helper)
+        def decides(fn_node):
+            rs = return_exprs(fn_node)
+            return any(isinstance(r, ast.Constant) and r.value is False for r in rs) and any(isinstance(r, ast.Constant) and r.value is True for r in rs)
+        neg = decides(m.node)
+        if not neg:
+            for r in rets:
+                if isinstance(r, ast.Call) and isinstance(r.func, ast.Attribute) and isinstance(r.func.value, ast.Name) and r.func.value.id == m.params()[0]:
+                    h = cls.find_method(r.func.attr)
+                    if h is not None and decides(h.node):
+                        neg = True
+        if not comps:
+            obs.append(inconclusive("F-mgf-domain", key, cls.relpath, m.node.lineno, m.qualname, "existence comparison not recognised"))
+        elif not ok:
+            obs.append(Ob("F-mgf-domain", key, cls.relpath, m.node.lineno, m.qualname, False,
+                          f"existence test `{detail}` is not {lhs} {op} {rhs} (strict)"))
+        elif not neg:
+            obs.append(inconclusive("F-mgf-domain", key, cls.relpath, m.node.lineno, m.qualname, "handling of undecided comparisons not recognised"))
+        else:
+            obs.append(Ob("F-mgf-domain", key, cls.relpath, m.node.lineno, m.qualname, True,
+                          f"mgf exists iff {lhs} {op} {rhs}; undecided comparisons count as 'does not exist'"))
     return obs
 
 
